@@ -141,9 +141,11 @@ Fixpoint file_run (w : Z) (fs : file) (ops : list file_op) : list (option (res Z
 
 (* ---------- SeqCountProvider (in memory) ---------- *)
 
-(* state = self.count; __init__ sets it to 0.  get_and_increment returns it and adds one *)
+(* state = self.count; __init__ sets it to 0.  get_and_increment returns it and moves on,
+   rolling over to 0 after 2^max_bit_width - 1 *)
 Definition mem_init : Z := 0.
-Definition mem_next (w count : Z) : Z * Z := (count, count + 1).
+Definition mem_next (w count : Z) : Z * Z :=
+  (count, if count >=? 2 ^ w - 1 then 0 else count + 1).
 
 (* the values returned by n successive calls *)
 Fixpoint mem_run (w : Z) (n : nat) (count : Z) : list Z :=
